@@ -9,7 +9,7 @@ UNITS = {
     'Bitops': (os.path.join(vlib.REPO, 'librfn/bitops.c'), ['bitcnt', 'clz', 'ctz', 'ilog2']),
     'Constexpr': (os.path.join(vlib.VERIF, 'harness/wrap_constexpr.c'), ['w_const_pop', 'w_const_lssb']),
     'Rand': (os.path.join(vlib.REPO, 'librfn/rand.c'), ['rand31_r']),
-    'Rotenc': (os.path.join(vlib.REPO, 'librfn/rotenc.c'), ['rotenc_decode', 'rotenc_count14']),
+    'Rotenc': (os.path.join(vlib.REPO, 'librfn/rotenc.c'), ['rotenc_decode', 'rotenc_count14', 'rotenc_count']),
     'Util': (os.path.join(vlib.REPO, 'librfn/util.c'), ['cyclecmp32']),
 }
 
